@@ -646,6 +646,7 @@ func C11(c *vk.Ctx) {
 	c.Add("traces_validated_against_impl", int64(overlappingPasses(c, "C11")))
 	c.Add("traces_validated_against_impl", int64(staleBackgroundLoad(c, "C11")))
 	c.Add("traces_validated_against_impl", int64(loadersReplay(c, "C11")))
+	c.Add("traces_validated_against_impl", int64(rejectedThenAccepted(c)))
 	// the cross-issuer clause: only lists of the issuer itself and of the other CA are served, and the other CA's entries carry
 	// a certificateIssuer entry extension that names the probe's issuer
 	hubFocus(c, []HubCfg{
